@@ -154,12 +154,9 @@ func runCommitteeSource(a *Analyzer, r *Results) {
 						fwd = false
 						continue
 					}
-					// every result of this return comes from that same call, position by position
-					for i, other := range ret.Results {
-						oe, isOE := other.(*ssa.Extract)
-						if !isOE || oe.Tuple != ex.Tuple || oe.Index != i {
-							fwd = false
-						}
+					// ... the committee result of that call (whatever else the function returns next to it)
+					if ex.Index >= call.Call.StaticCallee().Signature.Results().Len() || !isCommitteeSlice(call.Call.StaticCallee().Signature.Results().At(ex.Index).Type()) {
+						fwd = false
 					}
 				}
 			}
@@ -190,7 +187,7 @@ func runCommitteeSource(a *Analyzer, r *Results) {
 					n++
 					t := c.Term(arg)
 					good := false
-					if t.Op == "ext" && t.Name == "0" && len(t.Args) == 1 && t.Args[0].Op == "call" {
+					if t.Op == "ext" && len(t.Args) == 1 && t.Args[0].Op == "call" {
 						if g := a.calleeOf(t.Args[0]); g != nil && asker[g] {
 							good = true
 						}
@@ -604,7 +601,7 @@ func runArming(a *Analyzer, r *Results) {
 				walk = func(blk *ssa.BasicBlock, idx int) {
 					for i := idx; i < len(blk.Instrs); i++ {
 						x := blk.Instrs[i]
-						if isRegisterCall(x) {
+						if instrMustDo(a, x, isRegisterCall, 0) { // (the arming may be a helper's unconditional job)
 							return
 						}
 						if ret, isRet := x.(*ssa.Return); isRet {
